@@ -147,6 +147,15 @@ def _flow_graphs(yaml_text, mode):
         program.reset()
 
 
+def _stored_names(text):
+    import ast
+    names = set()
+    for node in ast.walk(ast.parse(text)):
+        if isinstance(node, ast.Name) and isinstance(node.ctx, ast.Store):
+            names.add(node.id)
+    return names
+
+
 class _Recorder:
     """Wraps teaal.trans.hifiber.FlowGraph for one compilation: every flow graph HiFiber builds is kept with the
     loop ranks of its Einsum (captured at construction, the Program object is re-used for the next Einsum)."""
@@ -221,8 +230,17 @@ def c10_unit(args):
             elif st2 == "ok":
                 c = closed.analyse(text2, allowed)
                 if not c["parse_ok"] or c["unbound"] or c["loop_leaks"]:
-                    rec["not_closed"] = c
-                    rec["text"] = text2
+                    # an ORDER problem is a name read before the statement that binds it; a name no statement of
+                    # the text binds at all is not a matter of statement order (e.g. the display code of a tensor
+                    # stage that only this artificial order lets the canvas capture) and is only counted
+                    bound_somewhere = _stored_names(text2) if c["parse_ok"] else set()
+                    misordered = [u for u in c["unbound"] if u[0] in bound_somewhere]
+                    if not c["parse_ok"] or misordered or c["loop_leaks"]:
+                        c = dict(c, unbound=misordered or c["unbound"])
+                        rec["not_closed"] = c
+                        rec["text"] = text2
+                    else:
+                        out["never_bound_under_tiebreak"] = out.get("never_bound_under_tiebreak", 0) + 1
                 elif inputs and mode == "plain" and text2 != text:
                     rep, ns, ctx = units.execute(text2, spec, inputs[0], mode)
                     if not units.run_ok(rep):
